@@ -194,7 +194,8 @@ def _both(ctx, normal, chk, name, spec, opts, fam, timeout):
     params = opts.get('params', {})
     if 'hang' in a:
         ctx.violation(name, 'does not return within %.0f s on a %d-node input' % (timeout, spec['shape'][0]), case=case, entry=name,
-                      kind='hang', family=fam, default_n_iter=(params.get('n_iter', -1) == -1))
+                      kind='hang', family=fam, default_n_iter=(params.get('n_iter', -1) == -1),
+                      tol_zero=(params.get('tol_optimization') == 0))
         return
     if 'crash' in a:
         ctx.violation(name, 'the interpreter died (exit %s)' % a['crash'], case=case, entry=name, kind='crash', family=fam)
